@@ -7,6 +7,9 @@
   them).  `stored_zero_witness` shows the last hypothesis cannot be dropped below the API.
 -/
 import BiomModel.Lemmas.C13
+import Mathlib.Tactic.Ring
+import Mathlib.Tactic.Linarith
+import Mathlib.Algebra.Order.Field.Rat
 
 namespace Biom.C13
 variable {α : Type}
@@ -181,5 +184,375 @@ theorem model_holds (f : VFun α) (ax : Axis) (inplace : Bool) (t : Table α) (c
   rw [hsame, hself, hres]
   cases inplace <;> simp
 
+/-! ### in the property's own words -/
+
+/-- `transform_support`: zero cells stay zero, and no vector gains a non-zero cell — for every
+function, every vector of the axis, looked up by ID. -/
+theorem transform_support (f : VFun α) (ax : Axis) (inplace : Bool) (t : Table α) (cs : CS α)
+    (hp : Pre t ax cs) (hf : LenPres f) :
+    ∃ o, transform f ax inplace t cs = .ok o ∧ ∀ id ∈ t.ids ax, ∃ v w,
+      t.vec? ax id = some v ∧ o.result.vec? ax id = some w ∧ v.length = w.length ∧
+      (∀ p ∈ v.zip w, p.1 = 0 → p.2 = 0) ∧ (nz w).length ≤ (nz v).length := by
+  obtain ⟨o, ho, _, hres, _⟩ := transform_run f ax inplace t cs hp hf
+  refine ⟨o, ho, ?_⟩
+  intro id hid
+  obtain ⟨j, hj, rfl⟩ := mem_ids hp id hid
+  have hz := vec_zeros cs.nMinor (idxSeg cs j) (valSeg cs j) (retOf f t ax cs j) (idxSeg_nodup cs hp.cswf j hj)
+    (idxSeg_length cs hp.cswf j hj) (by rw [retOf, hf]; exact idxSeg_length cs hp.cswf j hj) (seg_nonzero hp j)
+  refine ⟨_, _, vec_old hp j hj, by rw [hres]; exact vec_new hp f j hj, by rw [dv_length, dv_length], hz, ?_⟩
+  exact nz_length_le _ _ (by rw [dv_length, dv_length]) hz
+
+theorem sum_map_le (l : List Nat) (a b : Nat → Nat) (h : ∀ j ∈ l, a j ≤ b j) : (l.map a).sum ≤ (l.map b).sum := by
+  induction l with
+  | nil => simp
+  | cons x xs ih =>
+    have := h x List.mem_cons_self
+    have := ih (fun j hj => h j (List.mem_cons_of_mem _ hj))
+    simp only [List.map_cons, List.sum_cons]; omega
+
+/-- number of non-zero cells of a grid -/
+def countNz (g : List (List α)) : Nat := (g.map (fun r => (nz r).length)).sum
+
+/-- the number of non-zero cells never increases (density never increases) -/
+theorem transform_density (f : VFun α) (ax : Axis) (t : Table α) (cs : CS α) (hp : Pre t ax cs) (hf : LenPres f) :
+    countNz (newGrid f t ax cs) ≤ countNz cs.toDense := by
+  unfold countNz
+  rw [toDense_eq, newGrid, List.map_map, List.map_map]
+  apply sum_map_le
+  intro j hj
+  have hj' := List.mem_range.mp hj
+  have hz := vec_zeros cs.nMinor (idxSeg cs j) (valSeg cs j) (retOf f t ax cs j) (idxSeg_nodup cs hp.cswf j hj')
+    (idxSeg_length cs hp.cswf j hj') (by rw [retOf, hf]; exact idxSeg_length cs hp.cswf j hj') (seg_nonzero hp j)
+  exact nz_length_le _ _ (by rw [dv_length, dv_length]) hz
+
+/-! ### element-wise functions -/
+
+theorem newGrid_elem (g : α → α) (ax : Axis) (t : Table α) (cs : CS α) (hp : Pre t ax cs) :
+    newGrid (elemF g) t ax cs = (majorGrid t ax).map (·.map (zmap g)) := by
+  rw [← hp.dense, toDense_eq, newGrid, List.map_map]
+  apply List.map_congr_left
+  intro j _
+  exact vec_elem g cs.nMinor (idxSeg cs j) (valSeg cs j) (seg_nonzero hp j)
+
+omit [Zero α] [DecidableEq α] in
+theorem setMajorGrid_map (h : α → α) (ax : Axis) (t : Table α) (ht : t.wfb = true) :
+    setMajorGrid t ax ((majorGrid t ax).map (·.map h)) = { t with rows := t.rows.map (·.map h) } := by
+  cases ax with
+  | obs => rfl
+  | samp =>
+    obtain ⟨h1, h2, _, _⟩ := wfb_facts t ht
+    simp only [setMajorGrid, majorGrid]
+    rw [← transposeGrid_map, transposeGrid_involutive t.obs.length t.samp.length _ (by simpa using h1)]
+    intro r hr
+    obtain ⟨r', hr', rfl⟩ := List.mem_map.mp hr
+    rw [List.length_map]; exact h2 r' hr'
+
+omit [Zero α] [DecidableEq α] in
+theorem lenPres_elem (g : α → α) : LenPres (elemF g) := fun v _ _ => by simp [elemF]
+
+/-- an element-wise function acts cell by cell on the non-zero cells, along whichever axis -/
+theorem elementwise_result (g : α → α) (ax : Axis) (inplace : Bool) (t : Table α) (cs : CS α) (hp : Pre t ax cs) :
+    ∃ o, transform (elemF g) ax inplace t cs = .ok o ∧
+      o.result = { t with rows := t.rows.map (·.map (zmap g)) } := by
+  obtain ⟨o, ho, _, hres, _⟩ := transform_run (elemF g) ax inplace t cs hp (lenPres_elem g)
+  exact ⟨o, ho, by rw [hres, newGrid_elem g ax t cs hp, setMajorGrid_map (zmap g) ax t hp.twf]⟩
+
+/-- `elementwise_axis_free`: `f v = v.map g` gives the same table along either axis, whatever the
+two layouts (row-compressed for observations, column-compressed for samples) look like. -/
+theorem elementwise_axis_free (g : α → α) (i₁ i₂ : Bool) (t : Table α) (csR csC : CS α)
+    (hR : Pre t .obs csR) (hC : Pre t .samp csC) :
+    ∃ o₁ o₂, transform (elemF g) .obs i₁ t csR = .ok o₁ ∧ transform (elemF g) .samp i₂ t csC = .ok o₂ ∧
+      o₁.result = o₂.result ∧ cElem g t o₁.result = true := by
+  obtain ⟨o₁, h1, r1⟩ := elementwise_result g .obs i₁ t csR hR
+  obtain ⟨o₂, h2, r2⟩ := elementwise_result g .samp i₂ t csC hC
+  refine ⟨o₁, o₂, h1, h2, by rw [r1, r2], ?_⟩
+  rw [r1]
+  exact decide_eq_true rfl
+
+/-- `pa_spec`: presence/absence puts 1 exactly on the non-zero cells (0 elsewhere) -/
+theorem pa_spec [One α] (ax : Axis) (inplace : Bool) (t : Table α) (cs : CS α) (hp : Pre t ax cs) :
+    ∃ o, transform paF ax inplace t cs = .ok o ∧ cPa t o.result = true ∧
+      o.result = { t with rows := t.rows.map (·.map (fun x => if x = 0 then 0 else 1)) } := by
+  obtain ⟨o, ho, hr⟩ := elementwise_result (fun x : α => if x = 0 then 0 else 1) ax inplace t cs hp
+  have hz : zmap (fun x : α => if x = 0 then 0 else 1) = (fun x => if x = 0 then 0 else 1) := by
+    funext x; unfold zmap; by_cases h : x = 0 <;> simp [h]
+  rw [hz] at hr
+  refine ⟨o, ho, ?_, hr⟩
+  rw [hr]
+  exact decide_eq_true rfl
+
+/-! ### ranks (the ranking function is external; its contract is a hypothesis) -/
+
+/-- contract of `scipy.stats.rankdata(·, method)`: one rank per value, ranks are positive (non-zero),
+and permuting the values permutes the (value, rank) pairs -/
+structure RankOK (rank : List α → List α) : Prop where
+  len : ∀ v, (rank v).length = v.length
+  pos : ∀ v, ∀ x ∈ rank v, x ≠ 0
+  equivariant : ∀ v w : List α, v.Perm w → (v.zip (rank v)).Perm (w.zip (rank w))
+
+/-- `rank_support`: the (value, rank) pairs of each vector's non-zero cells are those the ranking
+function gives for the vector's non-zero values, and a cell is zero afterwards exactly when it
+was zero before. -/
+theorem rank_support (rank : List α → List α) (hr : RankOK rank) (ax : Axis) (inplace : Bool) (t : Table α)
+    (cs : CS α) (hp : Pre t ax cs) :
+    ∃ o, transform (rankF rank) ax inplace t cs = .ok o ∧ cRank rank t ax o.result = true ∧
+      ∀ id ∈ t.ids ax, ∃ v w, t.vec? ax id = some v ∧ o.result.vec? ax id = some w ∧
+        ∀ p ∈ v.zip w, p.1 = 0 ↔ p.2 = 0 := by
+  have hf : LenPres (rankF rank) := fun v _ _ => hr.len v
+  obtain ⟨o, ho, _, hres, _⟩ := transform_run (rankF rank) ax inplace t cs hp hf
+  have key : ∀ j, j < cs.nMajor →
+      (nzPairs (dv cs.nMinor (idxSeg cs j) (valSeg cs j)) (dv cs.nMinor (idxSeg cs j) (retOf (rankF rank) t ax cs j))).Perm
+        ((valSeg cs j).zip (rank (valSeg cs j))) := by
+    intro j hj
+    exact (vec_pairs cs.nMinor (idxSeg cs j) (valSeg cs j) (retOf (rankF rank) t ax cs j)
+      (idxSeg_nodup cs hp.cswf j hj) (idxSeg_inRange cs hp.cswf j) (idxSeg_length cs hp.cswf j hj)
+      (by rw [retOf, hf]; exact idxSeg_length cs hp.cswf j hj) (seg_nonzero hp j)).symm
+  have hpos : ∀ j, j < cs.nMajor → ∀ p ∈ nzPairs (dv cs.nMinor (idxSeg cs j) (valSeg cs j))
+      (dv cs.nMinor (idxSeg cs j) (retOf (rankF rank) t ax cs j)), p.2 ≠ 0 := by
+    intro j hj p hp'
+    have : p ∈ (valSeg cs j).zip (rank (valSeg cs j)) := (key j hj).mem_iff.mp hp'
+    exact hr.pos _ _ (List.of_mem_zip this).2
+  refine ⟨o, ho, ?_, ?_⟩
+  · unfold cRank
+    rw [List.all_eq_true]
+    intro id hid
+    obtain ⟨j, hj, rfl⟩ := mem_ids hp id hid
+    rw [vec_old hp j hj, hres, vec_new hp (rankF rank) j hj]
+    simp only [Bool.and_eq_true, beq_iff_eq, List.all_eq_true]
+    refine ⟨⟨by rw [dv_length, dv_length], ?_⟩, ?_⟩
+    · apply decide_eq_true
+      have hargs := vec_args cs.nMinor (idxSeg cs j) (valSeg cs j) (idxSeg_nodup cs hp.cswf j hj)
+        (idxSeg_inRange cs hp.cswf j) (idxSeg_length cs hp.cswf j hj) (seg_nonzero hp j)
+      exact (key j hj).trans (hr.equivariant _ _ hargs)
+    · intro p hp'
+      exact decide_eq_true (hpos j hj p hp')
+  · intro id hid
+    obtain ⟨j, hj, rfl⟩ := mem_ids hp id hid
+    refine ⟨_, _, vec_old hp j hj, by rw [hres]; exact vec_new hp (rankF rank) j hj, ?_⟩
+    intro p hp'
+    constructor
+    · exact vec_zeros cs.nMinor (idxSeg cs j) (valSeg cs j) _ (idxSeg_nodup cs hp.cswf j hj)
+        (idxSeg_length cs hp.cswf j hj) (by rw [retOf, hf]; exact idxSeg_length cs hp.cswf j hj)
+        (seg_nonzero hp j) p hp'
+    · intro h2
+      apply Classical.byContradiction
+      intro h1
+      have : p ∈ nzPairs (dv cs.nMinor (idxSeg cs j) (valSeg cs j))
+          (dv cs.nMinor (idxSeg cs j) (retOf (rankF rank) t ax cs j)) := by
+        unfold nzPairs
+        exact List.mem_filter.mpr ⟨hp', decide_eq_true h1⟩
+      exact hpos j hj p this h2
+
 end generic
+
+/-! ### normalisation, over the rationals -/
+
+theorem sumL_perm (v w : List Rat) (h : v.Perm w) : sumL v = sumL w := by
+  induction h with
+  | nil => rfl
+  | cons x _ ih => simp only [sumL, List.foldr_cons] at ih ⊢; rw [ih]
+  | swap x y l => simp only [sumL, List.foldr_cons]; ring
+  | trans _ _ ih1 ih2 => exact ih1.trans ih2
+
+theorem sumL_nz (v : List Rat) : sumL (nz v) = sumL v := by
+  induction v with
+  | nil => rfl
+  | cons x xs ih =>
+    by_cases hx : x = 0
+    · rw [nz_cons_zero x xs hx, ih, hx]; simp [sumL]
+    · rw [nz_cons_ne x xs hx]; simp only [sumL, List.foldr_cons] at ih ⊢; rw [ih]
+
+theorem sumL_map_div (v : List Rat) (s : Rat) : sumL (v.map (· / s)) = sumL v / s := by
+  induction v with
+  | nil => simp [sumL]
+  | cons x xs ih => simp only [sumL, List.map_cons, List.foldr_cons] at ih ⊢; rw [ih]; ring
+
+/-- `norm_sum_one`: a vector with non-zero total sums to 1 after normalisation -/
+theorem norm_sum_one (v : List Rat) (id : Id) (md : Option Md) (h : sumL v ≠ 0) : sumL (normF v id md) = 1 := by
+  unfold normF
+  rw [sumL_map_div, div_self h]
+
+theorem mem_zip_map {β γ : Type} (g : β → γ) (v : List β) (p : β × γ) (h : p ∈ v.zip (v.map g)) : p.2 = g p.1 := by
+  induction v with
+  | nil => simp at h
+  | cons x xs ih =>
+    simp only [List.map_cons, List.zip_cons_cons, List.mem_cons] at h
+    rcases h with h | h
+    · subst h; rfl
+    · exact ih h
+
+/-- `norm_proportional`: proportions inside the vector are preserved -/
+theorem norm_proportional (v : List Rat) (id : Id) (md : Option Md) :
+    ∀ p ∈ v.zip (normF v id md), ∀ q ∈ v.zip (normF v id md), p.2 * q.1 = q.2 * p.1 := by
+  intro p hp q hq
+  unfold normF at hp hq
+  rw [mem_zip_map _ v p hp, mem_zip_map _ v q hq]
+  ring
+
+theorem approx_refl (tol a : Rat) (h : 0 ≤ tol) : approx tol a a = true := by
+  unfold approx
+  apply decide_eq_true
+  have h0 : absR (a - a) = 0 := by simp [absR]
+  have h1 : 0 ≤ absR a := by unfold absR; split <;> linarith
+  have h2 : 0 ≤ maxR (absR a) (absR a) := by unfold maxR; split <;> assumption
+  rw [h0]
+  exact mul_nonneg h h2
+
+theorem zmap_div (s : Rat) : zmap (fun x : Rat => x / s) = (fun x => x / s) := by
+  funext x
+  unfold zmap
+  by_cases h : x = 0 <;> simp [h]
+
+/-- the divisor `norm` uses (sum of the stored values) is the vector's total -/
+theorem stored_sum (t : Table Rat) (ax : Axis) (cs : CS Rat) (hp : Pre t ax cs) (j : Nat) (hj : j < cs.nMajor) :
+    sumL (valSeg cs j) = sumL (dv cs.nMinor (idxSeg cs j) (valSeg cs j)) := by
+  rw [← sumL_nz (dv cs.nMinor (idxSeg cs j) (valSeg cs j))]
+  exact sumL_perm _ _ (vec_args cs.nMinor (idxSeg cs j) (valSeg cs j) (idxSeg_nodup cs hp.cswf j hj)
+    (idxSeg_inRange cs hp.cswf j) (idxSeg_length cs hp.cswf j hj) (seg_nonzero hp j))
+
+theorem lenPres_norm : LenPres (normF : VFun Rat) := fun v _ _ => by simp [normF]
+
+/-- table level: every vector of the axis is divided by its own total -/
+theorem norm_vectors (ax : Axis) (inplace : Bool) (t : Table Rat) (cs : CS Rat) (hp : Pre t ax cs) :
+    ∃ o, transform normF ax inplace t cs = .ok o ∧ ∀ id ∈ t.ids ax, ∃ v,
+      t.vec? ax id = some v ∧ o.result.vec? ax id = some (v.map (· / sumL v)) := by
+  obtain ⟨o, ho, _, hres, _⟩ := transform_run normF ax inplace t cs hp lenPres_norm
+  refine ⟨o, ho, ?_⟩
+  intro id hid
+  obtain ⟨j, hj, rfl⟩ := mem_ids hp id hid
+  refine ⟨_, vec_old hp j hj, ?_⟩
+  rw [hres, vec_new hp normF j hj]
+  have : retOf normF t ax cs j = (valSeg cs j).map (fun x => x / sumL (valSeg cs j)) := rfl
+  rw [this, vec_elem _ cs.nMinor (idxSeg cs j) (valSeg cs j) (seg_nonzero hp j), zmap_div,
+    stored_sum t ax cs hp j hj]
+
+/-- the normalisation clause of the predicate holds of the model, for every tolerance ≥ 0:
+every vector with non-zero total sums to 1 and `R[i]·T[j] = R[j]·T[i]` -/
+theorem norm_holds (tol : Rat) (htol : 0 ≤ tol) (ax : Axis) (inplace : Bool) (t : Table Rat) (cs : CS Rat)
+    (hp : Pre t ax cs) :
+    ∃ o, transform normF ax inplace t cs = .ok o ∧ cNorm tol t ax o.result = true := by
+  obtain ⟨o, ho, hv⟩ := norm_vectors ax inplace t cs hp
+  refine ⟨o, ho, ?_⟩
+  unfold cNorm
+  rw [List.all_eq_true]
+  intro id hid
+  obtain ⟨v, h1, h2⟩ := hv id hid
+  rw [h1, h2]
+  simp only [Bool.and_eq_true, beq_iff_eq, Bool.or_eq_true, List.all_eq_true, decide_eq_true_eq]
+  refine ⟨by simp, ?_⟩
+  by_cases hs : sumL v = 0
+  · exact Or.inl hs
+  · refine Or.inr ⟨?_, ?_⟩
+    · have := norm_sum_one v "" none hs
+      unfold normF at this
+      rw [this]
+      exact approx_refl tol 1 htol
+    · intro p hp' q hq'
+      have := norm_proportional v "" none p hp' q hq'
+      rw [this]
+      exact approx_refl tol _ htol
+
+/-! ### a stored zero below the API: `NoStoredZeros` cannot be dropped -/
+
+/-- 2 x 3 row-compressed matrix [[3,0,5],[0,2,0]] whose first row stores its zero explicitly -/
+def wCS : CS Int := { nMajor := 2, nMinor := 3, indptr := [0, 3, 4], indices := [0, 1, 2, 1], data := [3, 0, 5, 2] }
+
+/-- a ranking-like function: every value handed over gets the (non-zero) value 1 -/
+def wF : VFun Int := fun v _ _ => v.map (fun _ => 1)
+
+/-- `stored_zero_witness`: the matrix is well-formed, the kernel hands the stored zero to the
+function (the values passed are NOT the non-zero values of the vector), and the zero cell of the
+dense matrix becomes 1 — so "only non-zero values, zero cells stay zero" needs `NoStoredZeros`
+at kernel level. -/
+theorem stored_zero_witness :
+    wCS.wfb = true ∧ wCS.toDense = [[3, 0, 5], [0, 2, 0]] ∧
+    (match transformKernel wF ["a", "b"] none wCS with
+     | .ok (cs', log) =>
+       decide (log.map (·.args) = [[3, 0, 5], [2]]) && !decide (([3, 0, 5] : List Int).Perm (nz [3, 0, 5])) &&
+       decide ((eliminateZeros cs').toDense = [[1, 1, 1], [0, 1, 0]])
+     | .error _ => false) = true := by
+  decide
+
+/-- a function returning one value fewer makes the kernel fail (numpy: "could not broadcast"),
+except where numpy broadcasts a single value -/
+theorem length_mismatch_witness :
+    (match transformKernel (fun v _ _ => v.dropLast) ["a", "b"] none wCS with
+     | .ok _ => false | .error e => e == .value) = true ∧
+    (match transformKernel (fun v _ _ => [v.foldr (· + ·) 0]) ["a", "b"] none wCS with
+     | .ok (cs', _) => cs'.data == [8, 8, 8, 2] | .error _ => false) = true := by
+  decide
+
+/-! ### non-vacuity: the hypotheses are met by a concrete asymmetric table and unsorted layouts -/
+
+def exT : Table Int :=
+  { obs := ["o1", "o2"], samp := ["s1", "s2", "s3"], rows := [[3, 0, 5], [0, 2, 7]],
+    omd := some [[("k", "1")], [("k", "2")]], smd := none, ttype := some "OTU table" }
+
+/-- row-compressed, entries of row 0 stored out of order -/
+def exR : CS Int := { nMajor := 2, nMinor := 3, indptr := [0, 2, 4], indices := [2, 0, 1, 2], data := [5, 3, 2, 7] }
+/-- column-compressed, entries of column 2 stored out of order -/
+def exC : CS Int := { nMajor := 3, nMinor := 2, indptr := [0, 1, 2, 4], indices := [0, 1, 1, 0], data := [3, 2, 7, 5] }
+
+theorem exR_wf : exR.WF :=
+  ⟨by decide, by decide, by decide, by decide, by decide, by decide, by decide⟩
+theorem exC_wf : exC.WF :=
+  ⟨by decide, by decide, by decide, by decide, by decide, by decide, by decide⟩
+
+theorem exR_pre : Pre exT .obs exR :=
+  ⟨by decide, by decide, exR_wf, by decide, by decide, by decide, by unfold CS.NoStoredZeros; decide⟩
+theorem exC_pre : Pre exT .samp exC :=
+  ⟨by decide, by decide, exC_wf, by decide, by decide, by decide, by unfold CS.NoStoredZeros; decide⟩
+
+/-- a vector-wise, zeroing, length-preserving function: keep the first stored value, zero the rest -/
+def exF : VFun Int := fun v _ _ => match v with | [] => [] | x :: xs => x :: xs.map (fun _ => 0)
+
+theorem exF_lenPres : LenPres exF := by
+  intro v _ _
+  cases v <;> simp [exF]
+
+example : ∃ o, transform exF .obs true exT exR = .ok o ∧ holds exT .obs true o = true :=
+  model_holds exF .obs true exT exR exR_pre exF_lenPres
+example : ∃ o, transform exF .samp false exT exC = .ok o ∧ holds exT .samp false o = true :=
+  model_holds exF .samp false exT exC exC_pre exF_lenPres
+
+/-- the run is not trivial: along samples the third column [5,7] is stored as (7,5), the function
+keeps 7 and zeroes 5; the result has 3 non-zero cells instead of 4 and the receiver is untouched -/
+example : (match transform exF .samp false exT exC with
+    | .ok o => o.result.rows == [[3, 0, 0], [0, 2, 7]] && o.log.map (·.args) == [[3], [2], [7, 5]] &&
+               o.log.map (·.id) == ["s1", "s2", "s3"] && decide (o.selfAfter = exT)
+    | .error _ => false) = true := by decide
+
+example : ∃ o₁ o₂, transform (elemF (· * 2)) .obs true exT exR = .ok o₁ ∧
+    transform (elemF (· * 2)) .samp false exT exC = .ok o₂ ∧ o₁.result = o₂.result ∧
+    cElem (· * 2) exT o₁.result = true :=
+  elementwise_axis_free (· * 2) true false exT exR exC exR_pre exC_pre
+
+/-- a ranking function meeting the contract exists (every value gets rank 1: `method='dense'` on
+all-equal values); the theorem is about every such function -/
+theorem constRank_ok : RankOK (fun v : List Int => v.map (fun _ => 1)) := by
+  refine ⟨fun v => by simp, fun v x hx => ?_, fun v w h => ?_⟩
+  · obtain ⟨_, _, rfl⟩ := List.mem_map.mp hx; decide
+  · have : ∀ u : List Int, u.zip (u.map (fun _ => (1 : Int))) = u.map (fun x => (x, 1)) := by
+      intro u; induction u with
+      | nil => rfl
+      | cons x xs ih => simp [ih]
+    rw [this, this]; exact h.map _
+
+example : ∃ o, transform (rankF (fun v : List Int => v.map (fun _ => 1))) .samp true exT exC = .ok o ∧
+    cRank (fun v : List Int => v.map (fun _ => 1)) exT .samp o.result = true := by
+  obtain ⟨o, h1, h2, _⟩ := rank_support _ constRank_ok .samp true exT exC exC_pre
+  exact ⟨o, h1, h2⟩
+
+def exTq : Table Rat :=
+  { obs := ["o1", "o2"], samp := ["s1", "s2", "s3"], rows := [[3, 0, 5], [0, 2, 6]] }
+def exCq : CS Rat := { nMajor := 3, nMinor := 2, indptr := [0, 1, 2, 4], indices := [0, 1, 1, 0], data := [3, 2, 6, 5] }
+theorem exCq_wf : exCq.WF :=
+  ⟨by decide, by decide, by decide, by decide, by decide, by decide, by decide⟩
+theorem exCq_pre : Pre exTq .samp exCq :=
+  ⟨by decide, by decide, exCq_wf, by decide, by decide, by decide, by unfold CS.NoStoredZeros; decide⟩
+
+example : ∃ o, transform normF .samp true exTq exCq = .ok o ∧ cNorm (1 / 1099511627776) exTq .samp o.result = true :=
+  norm_holds _ (by decide) .samp true exTq exCq exCq_pre
+
+example : sumL ([5, 6] : List Rat) ≠ 0 := by simp only [sumL, List.foldr]; norm_num
 end Biom.C13
